@@ -227,6 +227,9 @@ func (c *c14ctx) sameAsBinary(lib, stdin string, args ...string) bool {
 }
 
 func (p c14) Run(w *mon.Worker, idx int) mon.Result {
+	if idx%32 == 7 && !w.Race {
+		return c14MultiFileDecode(w, idx)
+	}
 	if idx%16 == 15 {
 		return c14MultiDoc(w, idx)
 	}
